@@ -223,3 +223,54 @@ for _T in (SStr, SBytes):
         METHODS[(T, "lower")] = _lower
 
     _mk_lower(_T)
+
+
+# ---------------------------------------------------------------------------------------------------------------------
+# UTF-8 facts (opt-in: scenario option utf8_facts=True)
+#   * a pure-ASCII str is encodable (strict) in utf-8
+#   * the result of bytes.decode("utf-8", "replace") contains no lone surrogate: it is encodable (strict) in utf-8
+
+_ASCII_RE = z3.Star(z3.Range(chr(0), chr(127)))
+
+
+def _mk_utf8_facts():
+    default_enc = METHODS[(SStr, "encode")]
+    default_dec = METHODS[(SBytes, "decode")]
+
+    def _enc(it, s, *a, **k):
+        if _opt(it, "utf8_facts") and s.concrete() is None:
+            enc = (a[0].concrete() if a else (k["encoding"].concrete() if "encoding" in k else "utf-8")).lower().replace("_", "-")
+            if enc in ("utf-8", "utf8"):
+                ok = uf(f"encodable_{enc}", _S, _B)(s.t)
+                it.ex.assume(z3.Implies(z3.InRe(s.t, _ASCII_RE), ok))
+                it.ex.note("assumed", "a pure-ASCII str is encodable in UTF-8")
+        return default_enc(it, s, *a, **k)
+
+    def _dec(it, s, *a, **k):
+        r = default_dec(it, s, *a, **k)
+        if _opt(it, "utf8_facts") and s.concrete() is None and isinstance(r, SStr):
+            enc = (a[0].concrete() if a else (k["encoding"].concrete() if "encoding" in k else "utf-8")).lower().replace("_", "-")
+            err = a[1].concrete() if len(a) > 1 else (k["errors"].concrete() if "errors" in k else "strict")
+            if enc in ("utf-8", "utf8") and err in ("strict", "replace", "ignore"):
+                it.ex.assume(uf("encodable_utf-8", _S, _B)(r.t))
+                it.ex.note("assumed", "bytes.decode('utf-8', strict/replace/ignore) yields a str without lone surrogates (encodable in UTF-8)")
+        return r
+
+    METHODS[(SStr, "encode")] = _enc
+    METHODS[(SBytes, "decode")] = _dec
+
+
+_mk_utf8_facts()
+
+
+# ---------------------------------------------------------------------------------------------------------------------
+# collections.OrderedDict: an insertion-ordered dict (the engine's SDict is insertion-ordered); move_to_end etc. not modelled
+
+import collections as _collections
+
+
+def _ordered_dict(it, *a, **k):
+    return FUNCTIONS[id(dict)][1](it, *a, **k)
+
+
+CLASS_MODELS[_collections.OrderedDict] = _ordered_dict
